@@ -201,6 +201,8 @@ def handle : List String → String
     | some d, some hist => runSortedTable (nvSorter srt) d hist
     | _, _ => "bad-args"
   | "acc" :: rest => (C07Acc.handle ("acc" :: rest)).getD "bad-args"
+  | "gk" :: rest => (C07Acc.handle ("gk" :: rest)).getD "bad-args"
+  | "parts" :: rest => (C07Acc.handle ("parts" :: rest)).getD "bad-args"
   | ["agg", "numf", k, r, h, q] => (C07NumF64.handle ["agg", "numf", k, r, h, q]).getD "bad-args"
   | ["agg", "numfv", k, r, h, q] => (C07NumF64.handle ["agg", "numfv", k, r, h, q]).getD "bad-args"
   | ["agg", "counter", h] =>
